@@ -423,6 +423,23 @@ where
 	pub fn schema(&self) -> &Arc<Schema> {
 		&self.schema
 	}
+
+	#[cfg(ten0_serde_avro_fast_verif)]
+	/// Verification hook: (state, objects left in the current block, whether the reader now pretends EOF)
+	pub fn verif_state(&self) -> (&'static str, usize, bool) {
+		let (state, left) = match &self.reader_state {
+			ReaderState::Broken => ("broken", 0),
+			ReaderState::NotInBlock { .. } => ("not_in_block", 0),
+			ReaderState::InBlock {
+				n_objects_in_block, ..
+			} => ("in_block", *n_objects_in_block),
+		};
+		(
+			state,
+			left,
+			self.pretend_eof_because_yielded_unrecoverable_error,
+		)
+	}
 }
 
 enum ReaderState<'s, R: de::read::take::Take> {
